@@ -216,3 +216,26 @@ def check_C14(ctx):
         ctx.mc("MC_BigNat", workers=1)      # self-test of the base-256 arithmetic against TLC's native integers
     ctx.standard("MC_Numeric", "numeric", "Trace_Numeric", n_random=40000 if ctx.thorough else 4000,
                  shards=16 if ctx.thorough else 8, corrupt=_corrupt_numeric, mc_kw={"workers": 4, "cfg": cfg})
+
+
+# ------------------------------------------------------------------------------- C20
+
+@prop("C20", "scenario = a history of additions of certificates (19 kinds, explicit amounts small / 2^64-1), withdrawals and "
+             "proposals (every reachable state of MC_Deposits, <= MaxOps additions) plus seeded random lists; executed as a real "
+             "TransactionBody (helpers, also after decoding) and a real TransactionBuilder; non-trivial = the validator computed "
+             "the ledger figures from the emitted bytes and compared; distinct = (list sizes, certificate kinds in the body, "
+             "whether each total fits 64 bits)")
+def check_C20(ctx):
+    ctx.assumptions += ["pool registrations are counted as first registrations (as the statement says)",
+                        "script-credential certificates need witnesses in the builder and are exercised under C10/C18; here credentials are key hashes",
+                        "proposals are info actions (the deposit field is action-independent)"]
+    def corrupt(recs, rnd):
+        idx = [i for i, r in enumerate(recs) if isinstance(r.get("h_dep"), dict) and r["h_dep"].get("ok") and r["h_dep"].get("v_n")]
+        if not idx:
+            return False
+        v = recs[rnd.choice(idx)]["h_dep"]["v_n"]
+        v[-1] = (v[-1] + 1) % 256
+        return True
+    cfg = "MC_Deposits_thorough.cfg" if ctx.thorough else "MC_Deposits.cfg"
+    ctx.standard("MC_Deposits", "deposits", "Trace_Deposits", n_random=20000 if ctx.thorough else 1500,
+                 shards=16 if ctx.thorough else 8, corrupt=corrupt, mc_kw={"workers": 8, "cfg": cfg})
